@@ -35,7 +35,7 @@ class Check(Prop):
     ID = "C06"
     RULE = ("cases = (program, layout edit). Programs: generated from the Ruby-subset grammar (exact statement boundaries incl. bodies of "
             "class/def/if/unless/elsif/else/case-when/case-in/while/blocks) and golden corpus programs with a conservative boundary filter. Edits: insert "
-            "1-3 blank lines or comment-only lines or a =begin/=end block comment (0-3 body lines, at column 0) at a boundary; widen a string literal by 1-3 embedded newlines (raw, or as backslash-newline continuations); drop or add the final "
+            "1-3 blank lines or comment-only lines or a =begin/=end block comment (0-3 body lines, at column 0) at a boundary; widen a string literal by 1-3 embedded newlines (raw, or as backslash-newline continuations; one occurrence, or every line whose first such literal is the same text); drop or add the final "
             "newline. Oracle: records of `ti -i` (diagnostics + hints; plain mode sampled too) of the edited program equal the base "
             "records with rows after the edit shifted by the number of added lines, compared as multisets; rows of the widened "
             "statement itself are not compared. Non-trivial = the base output has a record after the edit point (for the final-newline "
@@ -104,7 +104,8 @@ class Check(Prop):
                 cands = [i for i, l in enumerate(lines) if wide_literal(l)]
                 if cands:
                     r = cands[draw(st.integers(0, len(cands) - 1))]
-                    return {"src": src, "edit": {"type": "widen", "row": r + 1, "n": draw(st.integers(1, 3)), "cont": draw(st.booleans())}}
+                    return {"src": src, "edit": {"type": "widen", "row": r + 1, "n": draw(st.integers(1, 3)), "cont": draw(st.booleans()),
+                                                 "all": draw(st.booleans())}}
             return {"src": src, "edit": {"type": "final-newline"}}
 
         @st.composite
@@ -144,15 +145,32 @@ class Check(Prop):
                 lit2 = lit[:k] + " " + "\\\n" * e["n"] + lit[k + 1:]
             else:
                 lit2 = lit[:k] + "\n" * e["n"] + lit[k + 1:]
-            lines[r - 1] = l[:m.start()] + lit2 + l[m.end():]
-            return "\n".join(lines), r + 1, e["n"], {r}, set(range(r, r + e["n"] + 1))
+            rows = [r]
+            if e.get("all"):
+                # the same literal widened the same way wherever a line's first wide literal is this one: identical multi-line
+                # literals must each move the rows on
+                rows = [i + 1 for i, x in enumerate(lines) if (wide_literal(x) and wide_literal(x).group(0) == lit)]
+            for ri in rows:
+                x = lines[ri - 1]
+                mm = wide_literal(x)
+                lines[ri - 1] = x[:mm.start()] + lit2 + x[mm.end():]
+            if len(rows) == 1:
+                return "\n".join(lines), r + 1, e["n"], {r}, set(range(r, r + e["n"] + 1))
+            n = e["n"]
+
+            def shift(row):
+                return row + n * len([ri for ri in rows if ri < row])
+            dc_new = set()
+            for ri in rows:
+                dc_new |= set(range(shift(ri), shift(ri) + n + 1))
+            return "\n".join(lines), shift, None, set(rows), dc_new
         raise ValueError(e["type"])
 
     def evaluate(self, case, rt):
         src = case["src"]
         e = case["edit"]
         key = run.sha(src, repr(sorted(e.items())))
-        labels = [e["type"] + ("-continuation" if e.get("cont") else ""), case.get("origin", "generated").split(":")[0]]
+        labels = [e["type"] + ("-continuation" if e.get("cont") else "") + ("-all" if e.get("all") else ""), case.get("origin", "generated").split(":")[0]]
         if e.get("ctx"):
             labels.append("in-" + e["ctx"])
         if e["type"] == "insert":
@@ -166,7 +184,11 @@ class Check(Prop):
         except meta.Discard as d:
             return meta.discard_verdict(d, labels, key)
         # base rows >= pivot move by shift (insertion before row `pivot`)
-        exp = [(k, (r + shift if r >= pivot else r), t) for k, r, t in base if r not in dc_base]
+        if callable(pivot):
+            exp = [(k, pivot(r), t) for k, r, t in base if r not in dc_base]
+            pivot = min(dc_base)
+        else:
+            exp = [(k, (r + shift if r >= pivot else r), t) for k, r, t in base if r not in dc_base]
         got2 = [(k, r, t) for k, r, t in got if r not in dc_new]
         nontrivial = any(r >= pivot for k, r, t in base) if e["type"] != "final-newline" else bool(base)
         if meta.same(exp, got2):
